@@ -2,7 +2,7 @@
 C16 — plain-text rendering: one well-formed line per vertex listing its neighbours.
 Case: see eglib/render.py (directed/undirected-family links only)
 """
-from eglib import graphs, render
+from eglib import h, graphs, render
 from eglib.driver import Violation, require
 from eglib.model import ERROR, FORWARD, ref_neighbors
 
@@ -78,6 +78,13 @@ def _check_render(case, vs, ls, u, phase):
     from edgegraph.output import plaintext
 
     G = graphs.abstract(vs, ls)
+    for v in vs:
+        # other callers in the process have asked for these vertices' neighbours and modified the lists they got
+        try:
+            h.neighbors(v, 0, 1)
+            h.neighbors(v, 0, 2)
+        except NotImplementedError:
+            pass
     use_r = bool(case["opt"] & 1) if (phase == 0 or case["opt"] & 16) else not bool(case["opt"] & 32)
     sortsel = (case["opt"] >> 1) % 4
     # renderings may end in the characters of the separator (a comma, a blank): nothing of them may be lost
